@@ -469,6 +469,8 @@ class Interp:
                     root, path = ('ptr', cur), ()
             elif isinstance(e, dict):
                 if 'f' in e:
+                    if e.get('adt') in getattr(self.facts, 'transparent', ()):
+                        continue       # the single field of a wrapper struct that does not exist on the reference tree
                     path = path + (('f', str(e.get('name', e['f']))),)
                 elif 'downcast' in e:
                     path = path + (('dc', e['downcast']),)
@@ -671,6 +673,8 @@ class Interp:
             kind = rv['agg']
             if kind == 'adt':
                 names = rv.get('fields', [])
+                if len(ops) == 1 and rv['adt'] in getattr(self.facts, 'transparent', ()):
+                    return ops[0]      # a wrapper struct introduced around an existing value (see Facts.transparent): seen through
                 return ('agg', 'adt', rv['adt'], rv['variant'], tuple((names[i] if i < len(names) else str(i), o) for i, o in enumerate(ops)))
             if kind in ('closure', 'coroutine', 'coroutine_closure'):
                 names = rv.get('fields', [])
